@@ -177,5 +177,10 @@ Fixpoint serve (semver : bytes -> bool) (marshal : report -> bytes) (cfg : confi
       let '(sts, m'') := serve semver marshal cfg m' qs' in (st :: sts, m'')
   end.
 
+(* the object a request would store (for batches of uploads that are in
+   flight together: they take effect in SOME order, see C12_batch_any_order) *)
+Definition q_path (q : request) : path :=
+  match q_decoded q with Some r => components (object_name r) | None => [] end.
+
 (* every object of the tree is named <dir>/<file> *)
 Definition two_level (m : fs) : bool := forallb (fun kv => Nat.eqb (length (fst kv)) 2) (files m).
